@@ -390,11 +390,12 @@ func (s *slowRequestLeapArray) NewEmptyBucket() interface{} {
 }
 
 func (s *slowRequestLeapArray) ResetBucketTo(bw *sbase.BucketWrap, startTime uint64) *sbase.BucketWrap {
-	atomic.StoreUint64(&bw.BucketStart, startTime)
+	// Clear the data before publishing the new start time.
 	bw.Value.Store(&slowRequestCounter{
 		slowCount:  0,
 		totalCount: 0,
 	})
+	atomic.StoreUint64(&bw.BucketStart, startTime)
 	return bw
 }
 
@@ -575,11 +576,12 @@ func (s *errorCounterLeapArray) NewEmptyBucket() interface{} {
 }
 
 func (s *errorCounterLeapArray) ResetBucketTo(bw *sbase.BucketWrap, startTime uint64) *sbase.BucketWrap {
-	atomic.StoreUint64(&bw.BucketStart, startTime)
+	// Clear the data before publishing the new start time.
 	bw.Value.Store(&errorCounter{
 		errorCount: 0,
 		totalCount: 0,
 	})
+	atomic.StoreUint64(&bw.BucketStart, startTime)
 	return bw
 }
 
